@@ -93,8 +93,14 @@ func validatorInline(p *Prog, sc *Scope) func(*ssa.Function) bool {
 		if !p.InLibrary(f) || f.Pkg == nil || f.Pkg.Pkg.Path() != modPath || opaque[f] {
 			return false
 		}
-		return f.Signature.Results().Len() == 1 && errIndex(f) == 0
+		return f.Signature.Results().Len() == 1 && (errIndex(f) == 0 || isPredicate(f))
 	}
+}
+
+// isPredicate: a function with a single bool result (a check factored out of a validator).
+func isPredicate(f *ssa.Function) bool {
+	res := f.Signature.Results()
+	return res.Len() == 1 && isBoolType(res.At(0).Type())
 }
 
 type spModel struct {
@@ -426,11 +432,11 @@ func uniqStrings(l []string) []string {
 // ------------------------------------------------------------------------------------------ C03
 
 type respAtoms struct {
-	sigReq, notPresent, sigNil                          string
-	destEmpty, destCur, destAcs                         string
-	issNil, issEq, statusEq                             string
-	hookNil, allow, irt, hookFail                       string
-	timeA                                               string
+	sigReq, notPresent, sigNil    string
+	destEmpty, destCur, destAcs   string
+	issNil, issEq, statusEq       string
+	hookNil, allow, irt, hookFail string
+	timeA                         string
 }
 
 func bindResp(t *Table) respAtoms {
@@ -486,11 +492,11 @@ func with(m map[string]bool, kv ...any) map[string]bool {
 }
 
 type assertAtoms struct {
-	sigReq, sigNil                                   string
-	issEq, subjNil, scdNil, condNil                  string
-	allow, irtSC, recip                              string
-	audHookNil, audHookFail, arEmpty, audEq          string
-	times                                            []string
+	sigReq, sigNil                          string
+	issEq, subjNil, scdNil, condNil         string
+	allow, irtSC, recip                     string
+	audHookNil, audHookFail, arEmpty, audEq string
+	times                                   []string
 }
 
 func bindAssert(t *Table) assertAtoms {
